@@ -92,6 +92,7 @@ def build_replay(ctx, rj, idx):
 def run_replay(ctx, path):
     rp = json.load(open(path))
     kind = rp.get("kind", "scenario")
+    rp["_path"] = path
     if kind != "scenario" or rp.get("scenario") is None:
         fn = SPECIAL_REPLAY.get(kind)
         if fn is None:
@@ -490,6 +491,118 @@ def run_cms(ctx):
         cms_e3(ctx, 400, alltypes)
 
 
+# HyperLogLog
+def hll_e1(ctx, shapes):
+    for (b, nh, two) in shapes:
+        c = {"B": b, "NH": nh, "EMIT": "FALSE", "TWO": "TRUE" if two else "FALSE"}
+        ctx.e1.append(vlib.model_check("MC_HLL", c, ["SetFunction", "RangeOK", "EmptyIff", "Algebra"], ctx.sub("e1")))
+
+
+def hll_e2(ctx, shapes, pairs):
+    for (b, nh) in shapes:
+        w = ctx.sub("hll_%d_%d" % (b, nh))
+        c = {"B": b, "NH": nh, "EMIT": "TRUE", "TWO": "FALSE"}
+        gen, st = vlib.generate("MC_HLL", c, w, "gen.out")
+        pf, h, mm = [os.path.join(w, x) for x in ("p.ndjson", "hist.ndjson", "m.ndjson")]
+        stats = vlib.vh(["replay", "hll", "--gen", gen, "--out", pf, "--hist", h, "--mout", mm, "--reps", "2", "--max-alt", "50",
+                         "--pairs", str(pairs), "--pair-op", "merge", "--seed", str(ctx.seed)], w)
+        os.remove(gen)
+        if stats.get("missing"):
+            raise ToolError("replay could not reach %d emitted transitions" % stats["missing"])
+        ctx.e2_transitions += stats["transitions"] + stats["pairs"]
+        ctx.executed += stats["executed"] + stats["alt_executed"] + stats["pairs"]
+        ctx.drift += stats["drift"]
+        ctx.drift_notes += stats.get("first_drift", [])
+        ctx.add_tags(stats.get("tags"), stats.get("tagged_distinct"))
+        ctx.extra.setdefault("state_graphs", []).append({"structure": "HyperLogLog", "b": b, "hashes": nh, "spec_states": st["distinct"],
+                                                         "materialised_as_real_objects": stats["states"], "merge_pairs": stats["pairs"]})
+        n, rej = vlib.adjudicate("P_HLL", pf, w)
+        ctx.judged += n
+        add_rejects(ctx, rej, pf, "hll", "P_HLL", hist=h)
+        sample_records(ctx, pf, 1, '"raises-register"')
+        if stats["pairs"]:
+            nm, drift = vlib.mvalidate("Trace_HLL", {"B": b}, mm, w)
+            ctx.mvalidated += nm
+            ctx.drift += len(drift)
+
+
+def hll_e3(ctx, scenarios):
+    w = ctx.sub("hll_e3")
+    scf = os.path.join(w, "scenarios.ndjson")
+    vlib.vh(["drive", "hll", "--out", scf, "--seed", str(ctx.seed), "--scenarios", str(scenarios)], w)
+    p = os.path.join(w, "p.ndjson")
+    stats = vlib.vh(["scenario", "hll", "--in", scf, "--out", p], w)
+    ctx.e3_calls += stats["calls"]
+    ctx.executed += stats["calls"]
+    n, rej = vlib.adjudicate("P_HLL", p, w)
+    ctx.judged += n
+    add_rejects(ctx, rej, p, "hll", "P_HLL", scenarios=scf)
+    sample_records(ctx, p, 1, '"roundtrip"')
+
+
+def hll_serde(ctx, big):
+    w = ctx.sub("hll_serde")
+    c = {"EMIT": "TRUE", "BIG": "TRUE" if big else "FALSE"}
+    gen, st = vlib.generate("Gen_HLLSerde", c, w, "docs.out")
+    ctx.e1.append({"module": "Gen_HLLSerde", "constants": c, "invariants": [], "states": st["distinct"], "transitions": st["generated"],
+                   "depth": 1, "ok": True, "secs": 0})
+    p = os.path.join(w, "p.ndjson")
+    stats = vlib.vh(["serde", "hll", "--gen", gen, "--out", p, "--seed", str(ctx.seed)], w)
+    if stats["docs"] != st["distinct"]:
+        raise ToolError("harness rendered %d documents, TLC emitted %d" % (stats["docs"], st["distinct"]))
+    ctx.e2_transitions += stats["docs"]
+    ctx.executed += stats["docs"]
+    n, rej = vlib.adjudicate("P_HLLSerde", p, w)
+    ctx.judged += n
+    for tid, clause in rej:
+        ctx.rejects.append({"tid": tid, "clause": clause, "records": p, "s": "hllserde", "pspec": "P_HLLSerde", "pconsts": {}, "hist": None,
+                            "scenarios": None, "kind": "serde"})
+    # distinct non-trivial documents: invalid ones (they must be rejected or yield a usable sketch) and valid ones with random/max registers
+    nt = 0
+    for line in open(p):
+        if '"k":"p"' in line and ('"valid":false' in line or '"fill":"rand"' in line or '"fill":"max"' in line):
+            nt += 1
+    ctx.tagged += nt
+    sample_records(ctx, p, 2, '"valid":false')
+
+
+def serde_replay(ctx, rp):
+    w = ctx.sub("replay_run")
+    doc = rp["record"]["doc"]
+    gen = os.path.join(w, "doc.ndjson")
+    with open(gen, "w") as f:
+        f.write(json.dumps(doc) + "\n")
+    p = os.path.join(w, "p.ndjson")
+    vlib.vh(["serde", "hll", "--gen", gen, "--out", p], w)
+    n, rej = vlib.adjudicate("P_HLLSerde", p, w, parallel=1)
+    for t, c in rej:
+        log("replay: document rejected by P_HLLSerde: %s" % c)
+    if [c for t, c in rej if ctx.pid in vlib.clause_props(c)]:
+        print("VIOLATION property=%s replay=%s" % (ctx.pid, rp.get("_path", "")), flush=True)
+        return 1
+    log("replay: property held on the replayed document")
+    return 0
+
+
+SPECIAL_REPLAY["serde"] = serde_replay
+
+
+def run_hll(ctx):
+    if ctx.quick:
+        hll_e1(ctx, [(4, 6, True), (5, 7, False)])
+        hll_e2(ctx, [(4, 9), (6, 8)], pairs=4000)
+        hll_e3(ctx, 45)
+    else:
+        hll_e1(ctx, [(4, 9, True), (5, 10, False), (4, 12, False)])
+        hll_e2(ctx, [(4, 12), (5, 10), (6, 10), (8, 9)], pairs=60000)
+        hll_e3(ctx, 1500)
+
+
+def run_C20(ctx):
+    hll_serde(ctx, big=not ctx.quick)
+    hll_e3(ctx, 45 if ctx.quick else 900)
+
+
 def handle_hang(ctx, stats, records, tag, pspec, hist=None):
     for h in stats.get("hang", []):
         ctx.rejects.append({"tid": h.get("tid", 0), "clause": PROPS[ctx.pid].get("hang_clause", ctx.pid + ".total: a call did not return (hang)"),
@@ -526,6 +639,16 @@ PROPS = {
                     "single-sketch graph over all (h1,h2) pairs under shift vectors of real hashers on u8,u16,u32,u64,usize, merge over pairs of materialised states; "
                     "non-trivial = tagged (overflow panic, rows disagree, collision in every row)",
             "assumptions": ["TLC and the TLA+ P-spec P_CMS judge every executed call", "overflow of u32/u64/usize is not driven (TLC integers are 32-bit); u8 and u16 are"]},
+    "C17": {"run": run_hll, "level": "model_checking",
+            "rule": "E1: two sketches over boundary-pattern hashes (0, all ones, single bits at 0, b-1, b, b+1, 62, 63, colliding indices), the graph closes; "
+                    "E2: every transition replayed through add_hashed and add (identity hasher), merge over pairs; E3: all b in 4..18; each call is accompanied by the other call form, "
+                    "a permuted+duplicated replay into a fresh sketch and a reconstruction from registers; non-trivial = tagged (raises a non-zero register, absorbed by a larger rank, maximal rank)",
+            "assumptions": ["TLC and the TLA+ P-spec P_HLL judge every executed call", "64-bit hashes are handled as four 16-bit limbs in TLA+"]},
+    "C20": {"run": run_C20, "level": "exploration",
+            "rule": "every document of the TLA+ document model Gen_HLLSerde (b x registers length x fill x field layout incl. omissions, duplicates, unknown and ill-typed fields) "
+                    "rendered as JSON and fed to serde_json; accepted sketches are exercised (count, add_hashed(0), add_hashed(MAX), add, merge) under catch_unwind; "
+                    "round trips of sketches from E3 scenarios on all b; non-trivial = invalid documents and valid ones with random/maximal register bytes",
+            "assumptions": ["serde_json as the concrete format", "TLC and the TLA+ P-spec P_HLLSerde judge every outcome"]},
     "C12": {"run": lambda ctx: (run_ck(ctx), run_C13(ctx)), "level": "model_checking", "rule": CK_RULE + "; quotient filter as C13", "assumptions": CK_ASSUME},
     "C13": {"run": run_C13, "level": "model_checking",
             "rule": "E1: every reachable state of the quotient-filter M-spec for the listed (q,r); E2: every emitted transition executed "
